@@ -744,3 +744,10 @@ def r01_7_era_bounds(ctx: Ctx) -> RuleResult:
             else:
                 rr.fail(gj.qual, f"for a calendar spanning years [{mn}, {mx}] the maximum year of era {label} is {got}, but year {y} is reported as year-of-era {want}: that year cannot be converted back from its own (era, year-of-era)", init.loc)
     return rr
+
+
+# shared with C12: the calendar's own ordering of year/month/day triples must agree with the day-number order the conversions
+# produce (monotonicity of the date <-> day-number maps needs it); one rule, reported under its home id R12.1b
+from .c12 import r12_1b_hebrew_compare as _r12_1b  # noqa: E402
+
+rule("C01")(_r12_1b)
